@@ -1532,6 +1532,58 @@ def mimo_cases(ctx, r, lines, checks):
             checks.append((site + ' vs Gen.mimoBinary (draws recorded)', 'channel and symbols drawn', 'ok ' + canon_bqm(b), src, bad))
 
 
+def comp_cases(ctx, r, lines, checks):
+    """coordinated_multipoint on small lattices, BPSK, binary real channel, no noise: energy == ||F·1 - F·s||^2 with
+    F = (drawn ±1) * attenuation, attenuation 1 for a station's own and its neighbours' transmitters"""
+    import networkx as nx
+    from dimod.generators.wireless import coordinated_multipoint
+    site = 'generators.coordinated_multipoint'
+    pre = HDR + 'import networkx as nx\nfrom dimod.generators.wireless import coordinated_multipoint\n'
+    for rep in range(ctx.scale(16, 300)):
+        n = r.randint(1, 4)
+        edges = [e for e in itertools.combinations(range(n), 2) if r.random() < .6]
+        per_node = r.random() < .5
+        seed = r.choice([0, 1, r.randrange(2 ** 31)])
+        g = nx.Graph(); g.add_nodes_from(range(n)); g.add_edges_from(edges)
+        gsrc = f'g = nx.Graph(); g.add_nodes_from(range({n})); g.add_edges_from({edges!r})\n'
+        if per_node:
+            ntx = {v: r.randint(1, 2) for v in range(n)}; nrx = {v: r.randint(1, 2) for v in range(n)}
+            if sum(ntx.values()) > 6:
+                ntx = {v: 1 for v in range(n)}
+            nx.set_node_attributes(g, values=ntx, name='num_transmitters'); nx.set_node_attributes(g, values=nrx, name='num_receivers')
+            gsrc += f'nx.set_node_attributes(g, values={ntx!r}, name="num_transmitters"); nx.set_node_attributes(g, values={nrx!r}, name="num_receivers")\n'
+        else:
+            ntx = {v: 1 for v in range(n)}; nrx = {v: 1 for v in range(n)}
+        # attenuation from the documented geometry: receiver of station a hears the transmitters of a and of a's neighbours
+        tx_of = [v for v in range(n) for _ in range(ntx[v])]; rx_of = [v for v in range(n) for _ in range(nrx[v])]
+        A = [[1 if (a == b or g.has_edge(a, b)) else 0 for b in tx_of] for a in rx_of]
+        nr_, nt_ = len(rx_of), len(tx_of)
+        call = 'coordinated_multipoint(g, "BPSK", F_distribution=("binary", "real"), seed=%d)' % seed
+        with warnings.catch_warnings():
+            warnings.simplefilter('ignore')
+            with recording() as rec:
+                b = coordinated_multipoint(g, 'BPSK', F_distribution=('binary', 'real'), seed=seed)
+            log = rec.stream()
+        ctx.tick('comp' + (':per-node' if per_node else ':uniform')); ctx.case(('comp', gsrc, seed), nontrivial=True, sample=dict(call=gsrc + call))
+        src = pre + gsrc + f'b = {call}\nassert dimod.ExactSolver().sample(b).first.energy == 0 and b.energy({{v: 1 for v in b.variables}}) == 0\n'
+        bad = False
+        c = coef(b)
+        if len(log) != nr_ * nt_ + nt_ or any(x not in (0, 1) for x in log[:nr_ * nt_]) or any(log[nr_ * nt_:]) or b.vartype is not dimod.SPIN or list(b.variables) != list(range(nt_)):
+            bad = True
+            ctx.fail('property', site, 'draws / variables', f'{gsrc}{call}: recorded draws {log!r}, variables {list(b.variables)!r}, expected {nr_} receivers x {nt_} transmitters', repro=src)
+        else:
+            Fm = [[(1 - 2 * log[k * nt_ + i]) * A[k][i] for i in range(nt_)] for k in range(nr_)]
+            for s_ in itertools.product((-1, 1), repeat=nt_):
+                want = sum((sum(Fm[k][i] * (1 - s_[i]) for i in range(nt_))) ** 2 for k in range(nr_))
+                got = energy(c, dict(enumerate(s_)))
+                if got != want:
+                    bad = True
+                    ctx.fail('property', site, 'BPSK, binary real channel: energy vs ||F v - F s||^2', f'{gsrc}{call}: channel {Fm}: at {s_} energy {got}, expected {want}', repro=src)
+                    break
+        lines.append(f"comp {nr_} {nt_} {';'.join(','.join(map(str, row)) for row in A)} {','.join(str(int(x)) for x in log) or '-'}")
+        checks.append((site + ' vs Gen.compBinary (draws recorded)', 'attenuated channel', 'ok ' + canon_bqm(b), src, bad))
+
+
 def run(ctx):
     r = ctx.rng
     ctx.rule = ('every gate generator with random labels (ints, strings, nested tuples) / strengths, both vartypes, every row of the truth table x every auxiliary value; '
@@ -1554,6 +1606,7 @@ def run(ctx):
     fl_cases(ctx, r, lines, checks)
     chimera_cases(ctx, r, lines, checks)
     mimo_cases(ctx, r, lines, checks)
+    comp_cases(ctx, r, lines, checks)
     ctx.notes.append('random generators: the NumPy generator is a contract (its draws are recorded and handed to the models as an explicit stream); placement of the draws, index maps, pair selection, capacities are modelled (Rnd.*) and proved; range / reproducibility over seeds stay validated; '
                      'multiplication circuit: "energy 0 (minimised over the internal wires) iff p = a*b, else >= 1" is proved for all n, m >= 2 (multiplication_circuit_zero_iff_product); the enumeration up to 3x3 stays as a test')
     got = run_driver('gendriver', lines)
